@@ -110,14 +110,25 @@ func VerifC17_SharedContext() {
 func VerifC17_CloneIndependent() {
 	maxLen := verifBound()
 	c := NewFContext("cid").(*FContextImpl)
-	k1 := verifStr(1 + verifChoice(maxLen))
-	verifAssume(k1 != opIDHeader)
-	v1 := verifStr(verifChoice(maxLen + 1))
-	c.AddRequestHeader(k1, v1)
-	rk := verifStr(1 + verifChoice(maxLen))
-	rv := verifStr(verifChoice(maxLen + 1))
-	c.AddResponseHeader(rk, rv)
-	c.AddEphemeralProperty("prop", 7)
+	// every map is cloned both empty and non-empty
+	if verifNondetBool() {
+		k1 := verifStr(1 + verifChoice(maxLen))
+		verifAssume(k1 != opIDHeader)
+		v1 := verifStr(verifChoice(maxLen + 1))
+		c.AddRequestHeader(k1, v1)
+	}
+	hasResp := verifNondetBool()
+	if hasResp {
+		rk := verifStr(1 + verifChoice(maxLen))
+		rv := verifStr(verifChoice(maxLen + 1))
+		c.AddResponseHeader(rk, rv)
+	} else {
+		verifReach("empty-response-headers")
+	}
+	hasProp := verifNondetBool()
+	if hasProp {
+		c.AddEphemeralProperty("prop", 7)
+	}
 	c.SetTimeout(time.Duration(verifChoice(3)) * 1500 * time.Millisecond)
 
 	var cl FContext
@@ -140,8 +151,17 @@ func VerifC17_CloneIndependent() {
 	verifAssert(cl.Timeout() == c.Timeout(), "timeout equal")
 	if ce, ok := cl.(FContextWithEphemeralProperties); ok {
 		p, has := ce.EphemeralProperty("prop")
-		verifAssert(has && p == 7, "ephemeral properties equal")
+		verifAssert(has == hasProp && (!has || p == 7), "ephemeral properties equal")
 	}
+
+	// a sibling clone taken in the same state
+	var sib FContext
+	if verifParam() == 0 {
+		sib = c.Clone()
+	} else {
+		sib = Clone(c)
+	}
+	sibReq, sibResp := sib.RequestHeaders(), sib.ResponseHeaders()
 
 	// mutate one side, observe the other
 	mk := verifStr(1 + verifChoice(maxLen))
@@ -164,6 +184,8 @@ func VerifC17_CloneIndependent() {
 		verifAssert(verifMapEq(origResp, c.ResponseHeaders()) && verifMapEq(c.ResponseHeaders(), origResp), "a response header added to the clone is invisible to the original")
 		verifAssert(verifMapEq(origReq, c.RequestHeaders()), "a timeout set on the clone is invisible to the original")
 	}
+	verifAssert(verifMapEq(sibReq, sib.RequestHeaders()) && verifMapEq(sib.RequestHeaders(), sibReq) &&
+		verifMapEq(sibResp, sib.ResponseHeaders()) && verifMapEq(sib.ResponseHeaders(), sibResp), "a sibling clone is unaffected by changes to the original or to another clone")
 	if ce, ok := cl.(FContextWithEphemeralProperties); ok {
 		ce.AddEphemeralProperty("other", 1)
 		_, has := c.EphemeralProperty("other")
